@@ -11,7 +11,7 @@ use crate::wl::expr::{lit_shape, s_type};
 use crate::wl::sys::{SysCfg, all_roots, describe, gen_system};
 use baa::{ArrayOps, Value};
 use num_bigint::BigUint;
-use patronus::expr::{Context, ExprRef, Type};
+use patronus::expr::{Context, ExprRef, Type, TypeCheck};
 use patronus::sim::{InitKind, Interpreter, Simulator};
 use serde_json::json;
 
@@ -38,13 +38,13 @@ impl Check for C07 {
         "C07"
     }
     fn work(&self, tier: Tier) -> Vec<WorkItem> {
-        vec![WorkItem { mode: "hist", count: tier.pick(150_000, 5_000_000) }]
+        vec![WorkItem { mode: "corpus", count: 3 * super::c11::corpus_files().len() as u64 }, WorkItem { mode: "hist", count: tier.pick(150_000, 5_000_000) }]
     }
     fn evaluations_counter(&self) -> &'static str {
         "reads_compared"
     }
     fn rule(&self) -> String {
-        "G2 transition systems (<=4 states incl. array states, <=3 inputs, init chains reading earlier states, const states, states without a next function (in half of the systems; they keep their value) at any position among the states, shared sub-terms; widths up to 131 bits (a third of the systems use multi-word values; multiplications wider than 128 bits are not generated); no div/rem and no array equality because the evaluator does not implement / mis-implements them, which is C06 territory) x operation histories of 5..60 operations {init(Zero|Random(seed)), set(input), step, take_snapshot, restore_snapshot(any earlier id, repeatedly, out of order), re-init}; after EVERY operation every root expression, every state/input symbol and up to 6 inner nodes are read through Simulator::get and compared with the reference simulator R3. Random init: free values are read back (seed-defined), states with init must equal their init expression, and a fresh interpreter with the same seed must give the same values. distinct_nontrivial = distinct (system, history) pairs with at least one step and one input change.".into()
+        "G2 transition systems (<=4 states incl. array states, <=3 inputs, init chains reading earlier states, const states, states without a next function (in half of the systems; they keep their value) at any position among the states, shared sub-terms; widths up to 131 bits (a third of the systems use multi-word values; multiplications wider than 128 bits are not generated); no div/rem and no array equality because the evaluator does not implement / mis-implements them, which is C06 territory) x operation histories of 5..60 operations {init(Zero|Random(seed)), set(input), step, take_snapshot, restore_snapshot(any earlier id, repeatedly, out of order), re-init}; after EVERY operation every root expression, every state/input symbol and up to 6 inner nodes are read through Simulator::get and compared with the reference simulator R3. Random init: free values are read back (seed-defined), states with init must equal their init expression, and a fresh interpreter with the same seed must give the same values. mode corpus: the shipped btor2 designs that stay inside that operator domain (memories up to 2^12 cells) get three such histories each. distinct_nontrivial = distinct (system, history) pairs with at least one step and one input change.".into()
     }
     fn assumptions(&self) -> Vec<String> {
         vec![
@@ -52,24 +52,47 @@ impl Check for C07 {
             "every state has a next function (states without one are left unchanged by the implementation; the statement does not define them)".into(),
         ]
     }
-    fn run_case(&self, sh: &mut Shard, _case: &CaseId) {
+    fn run_case(&self, sh: &mut Shard, case: &CaseId) {
         let mut rng = Rng::new(sh.case_seed());
         let mut ctx = Context::default();
-        let mut cfg = SysCfg::default();
-        cfg.divrem = false;
-        // states without a next function keep their value (there is nothing to replace it with)
-        cfg.nextless_states = rng.chance(1, 2);
-        cfg.array_eq = false;
-        cfg.array_inputs = false;
-        cfg.max_state_bits = 16;
-        cfg.max_input_bits = 8;
-        cfg.max_bv_width = *rng.pick(&[4u32, 4, 8, 32, 65, 129]);
-        if cfg.max_bv_width > 8 {
-            cfg.max_state_bits = 100 * cfg.max_bv_width / 32;
-            cfg.max_input_bits = 70 * cfg.max_bv_width / 32;
-        }
-        let gs = gen_system(&mut rng, &mut ctx, &cfg, "");
-        let sys = gs.sys;
+        let sys = if case.mode == "corpus" {
+            // the shipped designs (no div/rem, no array equality, memories of at most 2^12 cells: see the rule)
+            let files = super::c11::corpus_files();
+            let Some(path) = files.get(case.n as usize % files.len().max(1)) else { return };
+            let Ok(text) = std::fs::read_to_string(path) else { return };
+            if text.len() > sh.tier.pick(60_000, 400_000) {
+                sh.count("corpus_files_skipped_for_size", 1);
+                return;
+            }
+            let Ok(Some(sys)) = util::catch(|| patronus::btor2::parse_str(&mut ctx, &text, Some("corpus"))) else { return };
+            let nodes = r2::post_order(&ctx, &all_roots(&sys));
+            let outside = nodes.iter().any(|e| {
+                matches!(r2::op_name(&ctx[*e]), "udiv" | "sdiv" | "urem" | "srem" | "smod" | "arreq")
+                    || matches!(e.get_type(&ctx), Type::Array(a) if a.index_width > 12)
+                    || (r2::op_name(&ctx[*e]) == "mul" && matches!(e.get_type(&ctx), Type::BV(w) if w > 128))
+            });
+            if outside {
+                sh.count("corpus_files_outside_the_domain", 1);
+                return;
+            }
+            sh.count("corpus_histories", 1);
+            sys
+        } else {
+            let mut cfg = SysCfg::default();
+            cfg.divrem = false;
+            // states without a next function keep their value (there is nothing to replace it with)
+            cfg.nextless_states = rng.chance(1, 2);
+            cfg.array_eq = false;
+            cfg.array_inputs = false;
+            cfg.max_state_bits = 16;
+            cfg.max_input_bits = 8;
+            cfg.max_bv_width = *rng.pick(&[4u32, 4, 8, 32, 65, 129]);
+            if cfg.max_bv_width > 8 {
+                cfg.max_state_bits = 100 * cfg.max_bv_width / 32;
+                cfg.max_input_bits = 70 * cfg.max_bv_width / 32;
+            }
+            gen_system(&mut rng, &mut ctx, &cfg, "").sys
+        };
         // what is read after every operation
         let roots = all_roots(&sys);
         let mut reads: Vec<ExprRef> = roots.clone();
@@ -93,7 +116,7 @@ impl Check for C07 {
 
         let fail = |sh: &mut Shard, kind: &str, log: &[String], text: String| {
             let sig = format!("C07|{kind}");
-            sh.violation(sig, format!("{}\nhistory: {}\n{}", text, log.join("; "), describe(&ctx, &sys)), json!({}));
+            sh.violation(sig, format!("{}\nhistory: {}\n{}", text, log.join("; "), util::trunc(&describe(&ctx, &sys), 6000)), json!({}));
         };
 
         for opi in 0..=nops {
@@ -244,6 +267,7 @@ impl Check for C07 {
             m.floor(&format!("operations of kind {op}"), m.h("ops", op), tier.pick(60_000, 2_000_000));
         }
         m.floor("random inits read back", m.c("random_inits_read_back"), tier.pick(30_000, 1_000_000));
+        m.floor("histories on shipped designs", m.c("corpus_histories"), tier.pick(150, 200));
     }
 }
 
